@@ -276,18 +276,32 @@ inductive XOp where
 structure XState where
   s : State
   dead : Bool := false
+  /-- ghost: a waker has been thrown away or the executor dropped, so tasks may have been abandoned on
+      purpose ("no lost wake-up" is then not claimed) -/
+  abandoned : Bool := false
 
 /-- after the executor is gone nothing is queued any more: `Task::wake` finds no executor -/
 def XState.settle (x : XState) : XState := if x.dead then { x with s := { x.s with queue := [] } } else x
 
-/-- `Receiver::try_receive` on the receiver of task `c` -/
-def tryRecvTask (s : State) (nch : Nat) (c : Nat) : State × Except TryErr Nat :=
-  let r := tryReceive (s.relay c) ((s.fut c).isSome && !lostB s nch c)
-  ({ s with relay := upd s.relay c r.1,
-            delivered := upd s.delivered c (s.delivered c + (if r.2.isOk then 1 else 0)) }, r.2)
+/-- `Receiver::try_receive` on the receiver of task `c`: what it returns -/
+def tryRecvTask (s : State) (nch : Nat) (c : Nat) : Except TryErr Nat :=
+  (tryReceive (s.relay c) ((s.fut c).isSome && !lostB s nch c)).2
 
-/-- one outside operation that is not a step of the executor (those are `step` / `runUntilStalled`) -/
-def xApply (x : XState) (nch : Nat) : XOp → XState
+/-- … and what it does to the relay: a computed value is taken out -/
+def takeValue (s : State) (c : Nat) : State :=
+  match s.relay c with
+  | .computed _ => { s with relay := upd s.relay c .done, delivered := upd s.delivered c (s.delivered c + 1) }
+  | _ => s
+
+/-- is `c` a child some task still holds the receiver of (and will await)? Polling a receiver after
+    `try_receive` took the value panics by contract, so the harness leaves those receivers alone. -/
+def heldByParent (s : State) (c : Nat) : Bool := (s.kids (s.owner c)).contains c
+
+/-- step budget of `run_until_stalled` shared with the harness (`MAX_STEPS` in c15.rs) -/
+def maxSteps : Nat := 4000
+
+/-- one outside operation that is not a step of the executor -/
+def xApply (x : XState) : XOp → XState
   | .wake k i =>
     match (x.s.waiters k)[i]? with
     | none => x
@@ -300,10 +314,13 @@ def xApply (x : XState) (nch : Nat) : XOp → XState
     match (x.s.waiters k)[i]? with
     | none => x
     | some t => { x with s := { x.s with waiters := upd x.s.waiters k (x.s.waiters k ++ [t]) } }
-  | .drop k i => { x with s := { x.s with waiters := upd x.s.waiters k ((x.s.waiters k).eraseIdx i) } }
+  | .drop k i =>
+    match (x.s.waiters k)[i]? with
+    | none => x
+    | some _ => { x with s := { x.s with waiters := upd x.s.waiters k ((x.s.waiters k).eraseIdx i) }, abandoned := true }
   | .signal k => XState.settle { x with s := signal x.s k }
-  | .dropExec => XState.settle { x with dead := true }
-  | .try_ c => { x with s := (tryRecvTask x.s nch c).1 }
+  | .dropExec => XState.settle { x with dead := true, abandoned := true }
+  | .try_ c => if c < x.s.ntasks && !heldByParent x.s c then { x with s := takeValue x.s c } else x
   | .spawn =>
     match x.s.pool with
     | [] => x
@@ -313,6 +330,16 @@ def xApply (x : XState) (nch : Nat) : XOp → XState
       | none => x
   | .step => x
   | .rus => x
+
+/-- one operation of a `v` case: `Executor::step`, `Executor::run_until_stalled`, or an outside operation -/
+def xRun (x : XState) (op : XOp) : XState :=
+  match op with
+  | .step => if x.dead then x else { x with s := stepN 1 x.s }
+  | .rus => if x.dead then x else { x with s := (runUntilStalled maxSteps x.s 0).1 }
+  | op => xApply x op
+
+/-- a whole `v` case -/
+def xRunAll (x : XState) (ops : List XOp) : XState := ops.foldl xRun x
 
 /-! ### the forwarder alone (the `f` cases of the harness) -/
 
